@@ -88,10 +88,19 @@ type Frame struct {
 	env    map[string]Val          // parameter bindings by name, for specs
 	envT   map[string]types.Type
 	top    bool
+	// interior pointers held by loop-assigned variables when a loop head was
+	// cut on this path (copy on fork), see interior.go
+	interior map[*ssa.BasicBlock]map[*Cell]Val
 }
 
 func (fr *Frame) fork() *Frame {
 	n := *fr
+	if fr.interior != nil {
+		n.interior = make(map[*ssa.BasicBlock]map[*Cell]Val, len(fr.interior))
+		for k, v := range fr.interior {
+			n.interior[k] = v
+		}
+	}
 	n.vals = make(map[ssa.Value]Val, len(fr.vals))
 	for k, v := range fr.vals {
 		n.vals[k] = v
